@@ -66,8 +66,9 @@ func DumpErrors(errs gqlerror.List) string {
 	return sb.String()
 }
 
+// an explicit list: never nil, even when no name matches (the empty list "-" runs no rule)
 func selectRules(spec string) []validator.Rule {
-	var out []validator.Rule
+	out := []validator.Rule{}
 	for _, n := range strings.Split(spec, ",") {
 		if r, ok := AllRules[n]; ok {
 			out = append(out, r)
